@@ -122,6 +122,17 @@ func c20Gen(seed int64, idx int) *yang.ModSet {
 			yang.S("opd:command", "c20-show",
 				yang.S("opd:option", "detail", yang.S("type", "string")),
 				yang.S("opd:command", "thing", yang.S("opd:argument", "name", yang.S("type", "string"))))))
+		if idx%4 == 3 {
+			// command nodes that a grouping brings below configuration and below state nodes: they are neither, wherever they stand
+			om := ms.Mods[len(ms.Mods)-1]
+			om.Add(yang.S("grouping", "c20-diag", yang.S("leaf", "note", yang.S("type", "string")),
+				yang.S("opd:command", "show", yang.S("opd:option", "detail", yang.S("type", "string")))),
+				yang.S("container", "c20-cfg-with-commands", yang.S("uses", "c20-diag"), yang.S("leaf", "y", yang.S("type", "string"), yang.S("config", "false"))),
+				yang.S("container", "c20-state-with-commands", yang.S("config", "false"), yang.S("leaf", "resets", yang.S("type", "uint32")), yang.S("uses", "c20-diag")),
+				yang.S("container", "c20-deeper", yang.S("leaf", "n", yang.S("type", "string")),
+					yang.S("container", "status", yang.S("config", "false"), yang.S("uses", "c20-diag")),
+					yang.S("list", "session", yang.S("config", "false"), yang.S("key", "id"), yang.S("leaf", "id", yang.S("type", "uint32")), yang.S("uses", "c20-diag"))))
+		}
 	}
 	return ms
 }
